@@ -184,4 +184,8 @@ def plan(tier):
         specs += [{"sub": "finder", "kind": "hyp", "examples": 100000} for _ in range(4)]
         specs += [{"sub": "diff", "kind": "sweep", "amax": 4, "rmax": 6, "rates": [0, 0.26, 0.34, 0.5],
                    "part": i, "of": 32} for i in range(32)]
+    if tier == "thorough":
+        specs.append({"sub": "diff", "kind": "hyp", "examples": 60000, "asan": True})
+    if tier == "thorough":
+        specs.append({"sub": "finder", "kind": "hyp", "examples": 40000, "asan": True})
     return specs
